@@ -287,16 +287,32 @@ def run_sample(tst, cfg, xs, buf=None):
             pass
         finally:
             tst.N, tst.u = realN, realu
+    # ... or it has just tested another sample of the same length (same N, u), and the estimator / bet is then asked
+    # directly about this one before any test of it
+    est_first = (n + len(cfg["name"])) % 3 == 1
+    if est_first:
+        try:
+            with warnings.catch_warnings():
+                warnings.simplefilter("ignore")
+                other = [float(cfg["u"]) - float(v) for v in reversed(xs)]
+                tst.test(np.array(other))
+        except Exception:
+            pass
     try:
         with warnings.catch_warnings():
             warnings.simplefilter("ignore")
+            est = None
+            if est_first and cfg["method"] == "ALPHA":
+                est = tst.estim(np.array(xin()))
+            elif est_first and cfg["method"] == "BETTING":
+                est = tst.bet(np.array(xin()))
             p, ph = tst.test(xin())
-            if cfg["method"] == "ALPHA":
+            if est is not None:
+                pass
+            elif cfg["method"] == "ALPHA":
                 est = tst.estim(np.array(xin()))
             elif cfg["method"] == "BETTING":
                 est = tst.bet(np.array(xin()))
-            else:
-                est = None
         ph = [rs(v) for v in np.atleast_1d(ph)]
         if est is None:
             est_l = []
